@@ -35,6 +35,11 @@ impl MioListener {
     }
 
     pub(crate) fn accept(&self) -> io::Result<MioStream> {
+        #[cfg(actix_net_verif)]
+        if let Some(err) = crate::verif::accept_fault() {
+            return Err(err);
+        }
+
         match *self {
             MioListener::Tcp(ref lst) => lst.accept().map(|(stream, _)| MioStream::Tcp(stream)),
             #[cfg(unix)]
